@@ -130,17 +130,20 @@ def _process_step_expression(
             # found and it and it sets the new targets to the entire list
             # of assets identified during the entire transitive recursion.
             new_target_assets = []
-            for target_asset in target_assets:
-                new_target_assets.extend(model.\
-                    get_associated_assets_by_field_name(target_asset,
-                        step_expression['stepExpression']['name']))
-            if new_target_assets:
-                (additional_assets, _) = _process_step_expression(
-                    lang_graph, model, new_target_assets, step_expression)
-                new_target_assets.extend(additional_assets)
-                return (new_target_assets, None)
-            else:
-                return ([], None)
+            current_assets = target_assets
+            while current_assets:
+                (next_assets, _) = _process_step_expression(
+                    lang_graph, model, current_assets,
+                    step_expression['stepExpression'])
+                # Only continue from the assets that were not seen before,
+                # otherwise cyclic associations would never terminate.
+                current_assets = []
+                for asset in next_assets:
+                    if next((seen for seen in new_target_assets \
+                        if seen.id == asset.id), None) is None:
+                        new_target_assets.append(asset)
+                        current_assets.append(asset)
+            return (new_target_assets, None)
 
         case 'subType':
             new_target_assets = []
